@@ -16,6 +16,7 @@
 (*         output does not exist).  kind/proj name the view of the output    *)
 (* that was digested: the full text ("text") or one of DetCfg!Projections;  *)
 (* an event naming another view is invalid.  A rejected Observe carries     *)
+(* `run' (the group / batch composition of the run, reporting only) and    *)
 (* `renumbering': whether the recorded renumbering of lexicals (DetCfg!     *)
 (* RenumberingMayExplain) could explain it at all -- never for a projection. *)
 (***************************************************************************)
@@ -53,7 +54,7 @@ DetObserve ==
                   ELSE Append(dis, [event |-> l, input |-> e.input,
                                     cfg |-> C!Id(e.cfg), first |-> C!Id(who[e.input]),
                                     axes |-> SetToSeq(C!DiffAxes(who[e.input], e.cfg)),
-                                    kind |-> e.kind, proj |-> e.proj,
+                                    kind |-> e.kind, proj |-> e.proj, run |-> IF "run" \in DOMAIN e THEN e.run ELSE "",
                                     renumbering |-> C!RenumberingMayExplain(e.kind, e.proj, C!DiffAxes(who[e.input], e.cfg)),
                                     image |-> IF C!SameImage(who[e.input], e.cfg) THEN "same" ELSE "differs"])
 
